@@ -111,13 +111,14 @@ def rule_fmt(ctx: Ctx) -> RuleResult:
     # increment by exactly one
     incs = [n for n in own_nodes(f.node) if isinstance(n, ast.BinOp) and isinstance(n.op, ast.Add) and isinstance(n.left, ast.Call)
             and dotted(n.left.func) == "int"]
-    if len(incs) == 1 and isinstance(incs[0].right, ast.Constant) and incs[0].right.value == 1:
+    if incs and all(isinstance(i.right, ast.Constant) and i.right.value == 1 for i in incs):
         res.ok("NextGetter increment", "int(version) + 1")
     else:
         res.violation([NEXT, "increment"], "NextGetter does not increment the version number by exactly one", f.relpath, f.node.lineno)
     # no version -> starts from 0 (first version is 1); '*' / '>' -> the last existing one
     zero = [d for d in flow.all_defs if d.var == "version" and isinstance(d.value, ast.Constant) and d.value.value == 0] or [
-        r for g in family(ctx, f) for r in own_nodes(g.node) if isinstance(r, ast.Return) and isinstance(r.value, ast.Constant) and r.value.value == 0]
+        r for g in family(ctx, f) for r in own_nodes(g.node) if isinstance(r, ast.Return) and isinstance(r.value, ast.Constant) and r.value.value == 0] or [
+        i for i in incs if i.left.args and isinstance(i.left.args[0], ast.Constant) and i.left.args[0].value == 0]
     last = [n for g in family(ctx, f) for n in own_nodes(g.node) if isinstance(n, ast.Call) and isinstance(n.func, ast.Attribute)
             and n.func.attr == "get_last"]
     if zero and last:
